@@ -46,6 +46,46 @@ def run_variant(args):
         shutil.rmtree(d, ignore_errors=True)
 
 
+def run_patch(args):
+    """a stored patch (seeded breaking change / behaviour-preserving refactoring) on a scratch copy of <root>/j1939"""
+    kind, pid_dir, prop, root = args
+    name = os.path.basename(pid_dir)
+    d = tempfile.mkdtemp(prefix="j1939sa_")
+    try:
+        shutil.copytree(os.path.join(root, "j1939"), os.path.join(d, "j1939"))
+        r = subprocess.run(["git", "apply", os.path.join(pid_dir, "patch.diff")], cwd=d, capture_output=True, text=True)
+        if r.returncode:
+            return (kind + ":" + name, prop, "skipped", "patch does not apply to this tree")
+        r = subprocess.run([sys.executable, os.path.join(VERIF, "check.py"), prop, "--root", d, "--tier", "quick"],
+                           capture_output=True, text=True, timeout=300)
+        if kind == "seeded":
+            ok = r.returncode == 1
+        else:
+            ok = r.returncode != 1        # a refactoring must never be reported; undecided (2) is tolerated
+        if ok:
+            return (kind + ":" + name, prop, "ok", "undecided" if r.returncode == 2 else "")
+        tail = [l for l in r.stdout.splitlines() if not l.startswith("  R-") and not l.startswith("  O-")][-2:]
+        return (kind + ":" + name, prop, "MISMATCH", "exit=%d: %s" % (r.returncode, " | ".join(tail)[:300]))
+    finally:
+        shutil.rmtree(d, ignore_errors=True)
+
+
+def run_patches(props=None, root="/repo", workers=16):
+    """seeded changes: own property must report; refactorings: no property may report"""
+    import glob
+    import json
+    jobs = []
+    for f in sorted(glob.glob(os.path.join(VERIF, "seeded", "*", "meta.json"))):
+        m = json.load(open(f))
+        if props is None or m["property"] in props:
+            jobs.append(("seeded", os.path.dirname(f), m["property"], root))
+    for f in sorted(glob.glob(os.path.join(VERIF, "refactors", "*", "result.json"))):
+        for p in (props if props is not None else ["C%02d" % i for i in range(1, 20)]):
+            jobs.append(("refactor", os.path.dirname(f), p, root))
+    with cf.ThreadPoolExecutor(max_workers=workers) as ex:
+        return list(ex.map(run_patch, jobs))
+
+
 def run(props=None, root="/repo", workers=16):
     jobs = [(v, p, root) for v in V for p in v["props"] if props is None or p in props]
     with cf.ThreadPoolExecutor(max_workers=workers) as ex:
@@ -53,8 +93,10 @@ def run(props=None, root="/repo", workers=16):
 
 
 def main():
-    props = set(sys.argv[1:]) or None
+    props = set(a for a in sys.argv[1:] if not a.startswith("-")) or None
     res = run(props)
+    if "--patches" in sys.argv:
+        res += run_patches(props)
     bad = [r for r in res if r[2] in ("MISMATCH", "broken-variant")]
     for r in res:
         if r[2] != "ok":
